@@ -4,6 +4,7 @@ import (
 	"encoding/binary"
 	"errors"
 	"sync"
+	"time"
 
 	"github.com/gcash/bchd/chaincfg/chainhash"
 	"github.com/gcash/bchd/txscript"
@@ -301,7 +302,11 @@ func ZZ_C20_locking() {
 	var h chainhash.Hash
 	msg2 := &wire.MsgFilterLoad{Filter: vBytes("filter2", 2), HashFuncs: 1}
 	mu := &bf.mtx // whatever lock type the filter uses
-	method := vCase("method", 0, 9)
+	method := vCase("method", 0, 10)
+	if method == 10 && vSymbolic() {
+		// a transaction that spends its own output does not exist (the block scan would recurse on it)
+		vAssume(tx.MsgTx().TxIn[0].PreviousOutPoint.Hash != *tx.Hash())
+	}
 	if !vSymbolic() {
 		// native replay: the discipline failure must show up as a data race under -race.
 		// A saturated filter with the update-all flag makes every transaction take the update path.
@@ -316,6 +321,36 @@ func ZZ_C20_locking() {
 			bf.msgFilterLoad.Flags = wire.BloomUpdateAll
 		}
 		tx = zzNativeTx()
+		// a lock taken twice shows up as a call that never returns: one call per update flag and
+		// output-script class (data push, pay-to-pubkey, bare multisig) under a watchdog first
+		if bf.msgFilterLoad != nil {
+			for _, fl := range []wire.BloomUpdateType{wire.BloomUpdateAll, wire.BloomUpdateP2PubkeyOnly, wire.BloomUpdateNone} {
+				for kind := 0; kind < 3; kind++ {
+					bf.msgFilterLoad.Flags = fl
+					done := make(chan struct{})
+					go func() {
+						zzCall(bf, method, item, &op, &h, msg2, zzNativeTxKind(kind))
+						close(done)
+					}()
+					select {
+					case <-done:
+					case <-time.After(5 * time.Second):
+						vAssert("lock:double-lock", false)
+						vAssert("lock:released-at-return", false)
+						return
+					}
+					if bf.msgFilterLoad == nil {
+						break
+					}
+				}
+				if bf.msgFilterLoad == nil {
+					break
+				}
+			}
+			if bf.msgFilterLoad != nil {
+				bf.msgFilterLoad.Flags = wire.BloomUpdateAll
+			}
+		}
 		var wg sync.WaitGroup
 		for g := 0; g < 8; g++ {
 			wg.Add(1)
@@ -364,7 +399,33 @@ func zzCall(bf *Filter, method int, item []byte, op *wire.OutPoint, h *chainhash
 		bf.MatchTxAndUpdate(tx)
 	case 9:
 		bf.MsgFilterLoad()
+	case 10:
+		// package-level entry points that take the filter: they must go through its lock as well
+		GetMatchedIndices(bchutil.NewBlock(&wire.MsgBlock{Transactions: []*wire.MsgTx{tx.MsgTx()}}), bf)
+	case 11:
+		NewMerkleBlock(bchutil.NewBlock(&wire.MsgBlock{Transactions: []*wire.MsgTx{tx.MsgTx()}}), bf)
 	}
+}
+
+// zzNativeTxKind: one output whose script is a bare data push (0), pay-to-pubkey (1) or a bare
+// 1-of-1 multisig (2); a saturated filter matches the pushed datum of each.
+func zzNativeTxKind(kind int) *bchutil.Tx {
+	key := make([]byte, 33)
+	key[0] = 2
+	key[32] = 7
+	var script []byte
+	switch kind {
+	case 0:
+		script = []byte{0x02, 0xab, 0xcd}
+	case 1:
+		script = append(append([]byte{0x21}, key...), 0xac)
+	default:
+		script = append(append([]byte{0x51, 0x21}, key...), 0x51, 0xae)
+	}
+	m := wire.NewMsgTx(1)
+	m.AddTxOut(&wire.TxOut{Value: 1, PkScript: script})
+	m.AddTxIn(wire.NewTxIn(&wire.OutPoint{Index: 1}, []byte{0x01, 0x07}))
+	return bchutil.NewTx(m)
 }
 
 // zzNativeTx: a real transaction with one data-push output and one input (native stress only).
